@@ -11,6 +11,11 @@ EXTENDS Wide, Rounding, Text, Exp, Floats, FiniteSets
 OK == <<"ok">>
 Bad(why) == <<"bad", why>>
 Chk(cond, why) == IF cond THEN OK ELSE Bad(why)
+\* behaviour the specification describes but no listed property promises (error classes, Debug output, Context setters,
+\* to_f32, signum, ...): a mismatch is reported as information in the evidence, never as a violation of a property
+Info(why) == <<"info", why>>
+ChkInfo(cond, why) == IF cond THEN OK ELSE Info(why)
+Soft(v) == IF v = OK THEN OK ELSE Info(v[2])
 
 IsD(r) == "d" \in DOMAIN r
 IsPanic(r) == "panic" \in DOMAIN r
@@ -96,7 +101,7 @@ WithPrecisionRoundOK(a, p, m, r) ==
 WithPrecisionRoundWideOK(aw, P, m, r) ==
   LET dg == MaxI(1, Len(aw.d))
       ns == ZAdd(aw.z, ZSub(P, ZOfInt(dg)))
-  IN IF ~FitsI64(P) \/ ~FitsI64(ns) THEN Chk(IsPanic(r), "expected-precision-overflow-panic")
+  IN IF ~FitsI64(P) \/ ~FitsI64(ns) THEN ChkInfo(IsPanic(r), "expected-precision-overflow-panic")      \* no result exists; the documented outcome is the panic
      ELSE IF ~ZSmall(ZSub(P, ZOfInt(dg))) THEN Bad("unsupported-by-spec")
      ELSE LET rel == ZToInt(ZSub(P, ZOfInt(dg)))
               r0 == RoundToScale(Mk(aw.s, aw.d, 0), rel, m)
@@ -160,11 +165,11 @@ ErrKindOK(api, expected, r) ==
   IsErr(r) /\ (IF api \in {"parse_bytes", "parse_bytes_radix"} THEN r.err = "None" ELSE r.err = expected)
 ParseOK(api, text, radix, validUtf8, r) ==
   IF ~validUtf8 THEN Chk(IsErr(r), "must-be-error")
-  ELSE IF radix # 10 THEN Chk(ErrKindOK(api, "Other", r), "must-be-error")
+  ELSE IF radix # 10 THEN (IF ~IsErr(r) THEN Bad("must-be-error") ELSE ChkInfo(ErrKindOK(api, "Other", r), "error-class"))
   ELSE IF IsNumeral(text)
        THEN (IF ~IsD(r) THEN Bad("numeral-rejected") ELSE Chk(WOf(r.d) = ParseValue(text), "parsed-value"))
        ELSE IF ~IsErr(r) THEN Bad("non-numeral-accepted-or-panic")
-       ELSE Chk(ErrKindOK(api, AlgoErrKind(text), r), "error-class")
+       ELSE ChkInfo(ErrKindOK(api, AlgoErrKind(text), r), "error-class")
 
 \* ---------------------------------------------------------------- C04: every rendering parses back
 HasExpMarker(t) == EPos(t) # 0
@@ -205,7 +210,7 @@ DebugAltOK(a, r) ==
   IF "t" \notin DOMAIN r THEN Bad("outcome-kind")
   ELSE LET want == DbgPrefix \o (IF a.s < 0 THEN <<cMinus>> ELSE <<>>) \o DigitsText(a.d) \o <<ce>> \o ZText(ZNeg(a.z)) \o DbgSuffix
            inner == SubSeq(r.t, Len(DbgPrefix) + 1, Len(r.t) - 2)
-       IN Chk(r.t = want /\ (FitsI64(ZNeg(a.z)) => IsNumeral(inner) /\ ParseValue(inner) = a), "debug-representation")
+       IN ChkInfo(r.t = want /\ (FitsI64(ZNeg(a.z)) => IsNumeral(inner) /\ ParseValue(inner) = a), "debug-representation")
 
 \* {:?} : BigDecimal(sign=Plus, scale=2, digits=[<base-2^64 limbs, little endian>])
 RECURSIVE Limbs64(_)
@@ -219,7 +224,7 @@ DebugOK(a, r) ==
            want == <<66, 105, 103, 68, 101, 99, 105, 109, 97, 108, 40, 115, 105, 103, 110, 61>> \o sg
                    \o <<44, 32, 115, 99, 97, 108, 101, 61>> \o ZText(a.z)
                    \o <<44, 32, 100, 105, 103, 105, 116, 115, 61, 91>> \o JoinLimbs(Limbs64(a.d), 1) \o <<93, 41>>
-       IN Chk(r.t = want, "debug-representation")
+       IN ChkInfo(r.t = want, "debug-representation")
 
 \* ---------------------------------------------------------------- C16: precision formatting and flags
 W(x) == WMk(x.s, x.d, ZOfInt(x.sc))
@@ -243,10 +248,14 @@ FmtPrecRelOK(kind, a, N, t, c) ==
     [] OTHER -> FALSE
 \* width / fill / alignment / '+' / '0': std's pad_integral around the flag-free numeral
 Rep(c, n) == [i \in 1..n |-> c]
-PadExpected(fl, plain) ==
+PadParts(fl, plain) ==
   LET neg == plain # <<>> /\ plain[1] = cMinus
       body == IF neg THEN Tail(plain) ELSE plain
       sg == IF neg THEN <<cMinus>> ELSE IF fl.plus THEN <<cPlus>> ELSE <<>>
+  IN <<sg, body>>
+\* std's pad_integral: right-aligned by default, '0' flag pads after the sign
+PadExpected(fl, plain) ==
+  LET sg == PadParts(fl, plain)[1]  body == PadParts(fl, plain)[2]
       core == sg \o body
       pad == fl.w - Len(core)
   IN IF pad <= 0 THEN core
@@ -254,13 +263,24 @@ PadExpected(fl, plain) ==
      ELSE IF fl.align = "<" THEN core \o Rep(fl.fill, pad)
      ELSE IF fl.align = "^" THEN Rep(fl.fill, pad \div 2) \o core \o Rep(fl.fill, pad - (pad \div 2))
      ELSE Rep(fl.fill, pad) \o core
+\* what the property promises: only padding characters (or a sign) around the numeral printed without the flags -
+\* the numeral (with its sign) appears intact, everything else is fill (or zeros after the sign), the width is honoured
+PadRespectsNumeral(fl, plain, t) ==
+  LET sg == PadParts(fl, plain)[1]  body == PadParts(fl, plain)[2]
+      core == sg \o body
+      pad == fl.w - Len(core)
+  IN IF pad <= 0 THEN t = core
+     ELSE /\ Len(t) = fl.w
+          /\ \/ \E k \in 0..pad : t = Rep(fl.fill, k) \o core \o Rep(fl.fill, pad - k)
+             \/ t = sg \o Rep(c0, pad) \o body
 \* one formatting event: flag-free text judged by C04 / C16, flagged text by the padding rule
 FormatEventOK(e, a, aw, c) ==
   LET r == e.r IN
   IF ~Renders(r) THEN Bad("outcome-kind")
   ELSE LET hasFlags == "flags" \in DOMAIN e
            plain == IF hasFlags THEN r.plain ELSE r.t
-       IN IF hasFlags /\ r.t # PadExpected(e.flags, plain) THEN Bad("flags-alter-the-numeral")
+       IN IF hasFlags /\ ~PadRespectsNumeral(e.flags, plain, r.t) THEN Bad("flags-alter-the-numeral")
+          ELSE IF hasFlags /\ r.t # PadExpected(e.flags, plain) THEN Info("padding-differs-from-std-pad_integral")
           ELSE IF ~IsNumeral(plain) THEN Bad("output-not-a-numeral")
           ELSE IF ~hasFlags /\ ~ReadBack(r.t, r.rp) THEN Bad("output-does-not-read-back")
           ELSE IF "N" \in DOMAIN e THEN Chk(FmtPrecRelOK(e.kind, a, e.N, plain, c), "precision-formatting")
